@@ -376,13 +376,62 @@ func (w *World) bigConstValues() map[string]int64 {
 func ruleDivisorsAndIndices(w *World, r *RuleResult) {
 	reach := w.apiReachable()
 	bigConsts := w.bigConstValues()
+	// divisorOK: the divisor div of the division `at` in fn cannot be zero
+	var divisorOK func(fn *ssa.Function, at *ssa.Call, div ssa.Value, depth int) (bool, string)
+	divisorOK = func(fn *ssa.Function, at *ssa.Call, div ssa.Value, depth int) (bool, string) {
+		okAll, why := true, ""
+		for _, l := range w.newProv(fn, nil).roots(div) {
+			switch {
+			case l.Root.Kind == RNil:
+				// nil-ness is C04.R2's business
+			case (l.Root.Kind == RGlobal || l.Root.Kind == RGlobalObj) && l.Root.Name == "pow10LookupTable":
+				why = "power of ten from the table"
+			case l.Root.Kind == RGlobalObj && bigConsts[l.Root.Name] != 0:
+				why = fmt.Sprintf("package constant %s = %d", l.Root.Name, bigConsts[l.Root.Name])
+			case l.Root.Kind == RAlloc || l.Root.Kind == RParam && l.Field == "Coeff" || l.Root.Kind == RParam && isBigIntPtr(fn.Params[l.Root.Param].Type()):
+				// a scratch value: fine when it is tableExp10's tmp (power of ten) …
+				if w.isPow10Scratch(fn, div) {
+					why = "power of ten computed into the scratch argument of tableExp10"
+					continue
+				}
+				// … or derived from an operand whose zero test failed
+				if who := w.zeroCheckedOperand(fn, at); who != "" {
+					why = "derived from operand " + who + " after its IsZero test failed"
+					continue
+				}
+				// … or the divisor parameter of an unexported helper, non-zero at each of its call sites
+				if l.Root.Kind == RParam && l.Field == "" && depth < 2 && (fn.Object() == nil || !fn.Object().Exported()) && !w.addressTaken(fn) {
+					sites := w.allCallsTo(w.shortName(fn))
+					all := len(sites) > 0
+					for _, sc := range sites {
+						if l.Root.Param >= len(sc.Common().Args) {
+							all = false
+							break
+						}
+						if ok, _ := divisorOK(sc.Parent(), sc, sc.Common().Args[l.Root.Param], depth+1); !ok {
+							all = false
+						}
+					}
+					if all {
+						why = fmt.Sprintf("the divisor is a parameter of the unexported %s, non-zero at each of its %d call sites", w.shortName(fn), len(sites))
+						continue
+					}
+				}
+				okAll = false
+				why = "divisor " + w.exprOf(fn, div).String() + " is neither a power of ten, a non-zero constant, nor behind an IsZero test of the operand it derives from"
+			default:
+				okAll = false
+				why = "divisor of unknown origin " + l.Root.String()
+			}
+		}
+		return okAll, why
+	}
 	for _, name := range w.Names {
 		f := w.Funcs[name]
 		if !reach[f] {
 			continue
 		}
 		recvBig := f.Signature.Recv() != nil && w.apdTypeName(f.Signature.Recv().Type()) == "BigInt"
-		p := w.newProv(f, nil)
 		for _, c := range callsIn(f) {
 			call, ok := c.(*ssa.Call)
 			if !ok {
@@ -397,33 +446,7 @@ func ruleDivisorsAndIndices(w *World, r *RuleResult) {
 				key = fmt.Sprintf("%s #%d", key, n+1)
 			}
 			div := call.Common().Args[di]
-			okAll, why := true, ""
-			for _, l := range p.roots(div) {
-				switch {
-				case l.Root.Kind == RNil:
-					// nil-ness is C04.R2's business
-				case (l.Root.Kind == RGlobal || l.Root.Kind == RGlobalObj) && l.Root.Name == "pow10LookupTable":
-					why = "power of ten from the table"
-				case l.Root.Kind == RGlobalObj && bigConsts[l.Root.Name] != 0:
-					why = fmt.Sprintf("package constant %s = %d", l.Root.Name, bigConsts[l.Root.Name])
-				case l.Root.Kind == RAlloc || l.Root.Kind == RParam && l.Field == "Coeff" || l.Root.Kind == RParam && isBigIntPtr(f.Params[l.Root.Param].Type()):
-					// a scratch value: fine when it is tableExp10's tmp (power of ten) …
-					if w.isPow10Scratch(f, div) {
-						why = "power of ten computed into the scratch argument of tableExp10"
-						continue
-					}
-					// … or derived from an operand whose zero test failed
-					if who := w.zeroCheckedOperand(f, call); who != "" {
-						why = "derived from operand " + who + " after its IsZero test failed"
-						continue
-					}
-					okAll = false
-					why = "divisor " + w.exprOf(f, div).String() + " is neither a power of ten, a non-zero constant, nor behind an IsZero test of the operand it derives from"
-				default:
-					okAll = false
-					why = "divisor of unknown origin " + l.Root.String()
-				}
-			}
+			okAll, why := divisorOK(f, call, div, 0)
 			if okAll {
 				r.ok(key, w.instrPos(call), why, true)
 			} else {
